@@ -224,11 +224,14 @@ Definition wf_obj (k : kb) (i : nat) (o : obj) : Prop :=
   | KConn CImp => length (oops o) = 2%nat /\ length (weights (opar o)) = 2%nat /\ Forall (fun w => 0 <= w) (weights (opar o))
   | KConn _ | KIff | KXor =>
       (2 <= length (oops o))%nat /\ length (weights (opar o)) = length (oops o) /\ Forall (fun w => 0 <= w) (weights (opar o))
-  end.
+  end /\
+  (* the conjunctions an XOr updates are the operands of its negations *)
+  Forall (fun c => exists m, In m (oops o) /\ In c (oops (getobj k m))) (oaux o).
 Definition wf_kb (k : kb) : Prop := forall i, (i < length k)%nat -> wf_obj k i (getobj k i).
 
 (* executable wf check used by the correspondence driver *)
-Definition wf_objb (i : nat) (o : obj) : bool :=
+Definition wf_objb (k : kb) (i : nat) (o : obj) : bool :=
+  forallb (fun c => existsb (fun m => memb c (oops (getobj k m))) (oops o)) (oaux o) &&
   forallb (fun j => Nat.ltb j i) (oops o) && forallb (fun j => Nat.ltb j i) (oaux o) &&
   qltb (1 # 2) (alpha (opar o)) && qleb (alpha (opar o)) 1 &&
   match okind o with
@@ -238,7 +241,7 @@ Definition wf_objb (i : nat) (o : obj) : bool :=
   | _ => Nat.leb 2 (length (oops o)) && Nat.eqb (length (weights (opar o))) (length (oops o)) && forallb (qleb 0) (weights (opar o))
   end.
 Definition wf_kbb (k : kb) : bool :=
-  forallb (fun p => wf_objb (fst p) (snd p)) (combine (seq 0 (length k)) k).
+  forallb (fun p => wf_objb k (fst p) (snd p)) (combine (seq 0 (length k)) k).
 
 (* ---------- public operations (what a user can call between two data updates) ---------- *)
 Inductive pubop :=
